@@ -359,4 +359,24 @@ PROPS.update({
              'distinct = distinct text',
         explanation='A change to either .par file or either generated parser regenerates Gen/ParGrammars.v and re-runs both theorems.',
     ),
+    'C29': dict(
+        level='proof',
+        level_text='Rocq: a labelled transition system of the server\'s diagnostics publishing (synchronous part, notify_analysis_ok, background '
+                   'analyses finishing at any time) with a theorem over ALL histories and ALL interleavings for the guarded design '
+                   '(C29_last_is_final: after quiescence the last published diagnostics are those of the final text with the final '
+                   'version) and refutations for the server as it is (C29_last_is_final_refuted: stale version published last; '
+                   'C29_same_version_race_refuted; each half of the repair alone is insufficient). Tie to the code: every history of 1-2 '
+                   'events (and sampled / all 3-event histories) over 4 text classes x slow/fast background analysis is replayed against '
+                   'the REAL server (cfg-guarded delay hook) and the published (version, class) sequence is compared with the model run '
+                   'of the same schedule.',
+        level_note='Trusted: Coq kernel, extraction, Python LSP client, the delay hook (sleep before a background analysis of a text marked '
+                   'verif-slow). Schedules in which an analysis finishes between the spawn and the notify_analysis_ok of the same handler '
+                   'cannot be forced without a gate inside the handler; they are covered by the model only.',
+        technique='Rocq proof over all interleavings of the publishing LTS (invariant) + replay of enumerated histories/schedules against the real server',
+        custom=lschecks.c29,
+        rule='histories = sequences of 1..3 (thorough: all 3, sampled 4) open/change events whose text is a syntax error / background error / '
+             'LALR conflict warning / fine, each spawned analysis slow (finishes after all later edits) or fast (finishes before the next '
+             'edit); non-trivial = history with >= 2 versions; distinct = distinct case text',
+        explanation='Known finding D11: a slow analysis of an old version publishes last.',
+    ),
 })
